@@ -61,14 +61,3 @@ Definition redis_slice {A} (l : list A) (start stop : Z) : list A :=
 (** score ranges: inclusive bounds *)
 Definition zs_byscore (mn mx : Z) (l : list elt) : list elt :=
   filter (fun e => f_le mn (snd e) && f_le (snd e) mx) l.
-
-(** Recorded defect classes of the rank-range translation (DESIGN.md F-04b): the
-    inputs on which engine.rs zrange deviates from [redis_range].
-    forward: stop below -len is clamped to 0 instead of making the range empty;
-    reverse: additionally a start at or beyond len is clamped to len-1. *)
-Definition kf_zrange_fwd (ln start stop : Z) : bool :=
-  (stop <? - ln) && ((start =? 0) || (start <=? - ln)).
-Definition kf_zrange_rev (ln start stop : Z) : bool :=
-  let si := if start <? 0 then Z.max (ln + start) 0 else start in
-  let ei := if stop <? 0 then Z.max (ln + stop) 0 else stop in
-  ((ln <=? si) && (ln - 1 <=? ei)) || ((stop <? - ln) && (si =? 0)).
